@@ -10,12 +10,15 @@ fires, bit-vector arithmetic on the terms *is* Python arithmetic.
 
 SB = symbolic boolean (z3 Bool term).
 """
-import z3
+try:
+    import z3
+except ImportError:          # the repo's own interpreter has no z3: only the int side of the polymorphic text is usable there
+    z3 = None
 
 W = 40
 SMIN = -(1 << (W - 1))
 SMAX = (1 << (W - 1)) - 1
-_sort = z3.BitVecSort(W)
+_sort = z3.BitVecSort(W) if z3 else None
 
 
 def set_width(w):
